@@ -16,7 +16,8 @@ Proof. exact parse_if_total_proof. Qed.
 (* (a) Round trip, general form.  [rend 9 a s] says that s is one of the texts of
    the tree a: any white space (blank, tab, line feed, carriage return) before
    every token, any redundant parentheses, any spelling of a literal that the
-   quoting admits (body b of a quoted string stands for unq b), minimal or more
+   quoting admits (body b of a double quoted string stands for unq 0 b; single
+   quoted bodies stand for themselves), minimal or more
    parentheses according to the precedence levels.  Every such text, followed
    by any white space, parses to exactly that tree. *)
 Theorem parse_ast_of_text : forall a s w, rend 9 a s -> all_ws w -> parse_ast (s ++ w) = Some a.
@@ -30,10 +31,17 @@ Proof. exact rend_parse_if_proof. Qed.
 
 (* (a) Round trip for the renderer with minimal parentheses: every well-formed
    AST (function names in the Word alphabet; single quoted literals without
-   quote, line break and without a backslash sequence that pyparsing converts;
-   double quoted literals arbitrary) comes back from its text. *)
+   single quote, line feed and carriage return; double quoted literals
+   arbitrary) comes back from its text. *)
 Theorem parse_if_render : forall e, wf_if e = true -> parse_if (render_if e) = Some e.
 Proof. exact parse_if_render_proof. Qed.
+
+(* Text between single quotes is the literal, verbatim, whatever backslash
+   sequences it contains (bobpaths(7), String literals). *)
+Theorem single_quoted_literal_verbatim : forall s,
+  ~ In 39 s -> ~ In 10 s -> ~ In 13 s ->
+  parse_if (39 :: s ++ [39]) = Some (IStr (SLit s false)).
+Proof. exact single_quoted_literal_verbatim_proof. Qed.
 
 (* the same for trees whose comparisons have arbitrary operands (what the
    grammar accepts before the parse actions check the operand types) ... *)
@@ -176,20 +184,23 @@ Example rejected_texts :
   parse_if [40;39;97;39;41;32;61;61;32;40;34;98;34;41] = Some (ICmp OEq lit_a (SLit [98] true)).
 Proof. vm_compute. auto 10. Qed.
 
-(* what the installed pyparsing does to backslash sequences inside SINGLE quotes
-   (bobpaths(7) promises the text verbatim):  'a\tb' holds a tab,  '\x42' is B,
-   '\73' loses the backslash,  '\q' keeps it *)
-Example single_quote_escapes_converted :
-  parse_if [39;97;92;116;98;39] = Some (IStr (SLit [97;9;98] false)) /\
-  parse_if [39;92;120;52;50;39] = Some (IStr (SLit [66] false)) /\
-  parse_if [39;92;55;51;39] = Some (IStr (SLit [55;51] false)) /\
-  parse_if [39;92;113;39] = Some (IStr (SLit [92;113] false)).
+(* single quotes keep backslash sequences as written:  'C:\temp\x42\0\73\'  ;
+   the same sequences between double quotes are converted by the installed
+   pyparsing (tab, B, NUL, 73; D = double quote):  DC:\temp\x42\0\73D ;
+   a line feed or carriage return inside single quotes is an error *)
+Example single_quoted_literal_verbatim_nonvacuous :
+  parse_if [39; 67;58;92;116;101;109;112; 92;120;52;50; 92;48; 92;55;51; 92; 39]
+    = Some (IStr (SLit [67;58;92;116;101;109;112; 92;120;52;50; 92;48; 92;55;51; 92] false)) /\
+  parse_if [34; 67;58;92;116;101;109;112; 92;120;52;50; 92;48; 92;55;51; 34]
+    = Some (IStr (SLit [67;58;9;101;109;112; 66; 0; 55;51] true)) /\
+  parse_if [39;97;10;98;39] = None /\ parse_if [39;97;13;98;39] = None.
 Proof. vm_compute. auto. Qed.
 
 Print Assumptions parse_if_total.
 Print Assumptions parse_ast_of_text.
 Print Assumptions parse_if_of_text.
 Print Assumptions parse_if_render.
+Print Assumptions single_quoted_literal_verbatim.
 Print Assumptions parse_ast_render.
 Print Assumptions parse_ast_render_full.
 Print Assumptions render_is_text.
